@@ -9,7 +9,7 @@ props = [json.loads(l) for l in (VERIF / "properties.jsonl").read_text().splitli
 # id -> (technique, level text, level note, DESIGN section)
 TABLE = {
     "C01": (
-        "Hypothesis property test, differential against a naive longest-match reference model, over generated prefix lattices and boundary probes; four construction orders per converter",
+        "Hypothesis property test, differential against a naive longest-match reference model, over generated prefix lattices and boundary probes; each converter reached through many histories (orders, incremental, merged, interleaved queries, split-and-merge, loaders); atheris stage in thorough",
         "Generated-input exploration: thousands of converters with nested / overlapping / one-character-different URI prefixes (incl. the empty one) are probed around every prefix boundary and every answer of parse_uri / compress / is_uri is compared with an independent linear-scan model on four differently ordered constructions. This finds wrong-match, off-by-one and stale-index defects; it does not prove absence.",
         "Trusts the 30-line reference model in pbt/model.py and Hypothesis' generation; small alphabets plus long realistic URL prefixes stand in for all strings.",
     ),
@@ -44,7 +44,7 @@ TABLE = {
         "Trusts pbt/model.py for which side recognises a string.",
     ),
     "C08": (
-        "Hypothesis property test: metamorphic relation between default / passthrough / strict modes of the 14 functions on the same input, with an exception-type whitelist",
+        "Hypothesis property test: metamorphic relation between default / passthrough / strict modes of the 14 functions on the same input, with an exception-type whitelist, on converters reached through several build histories; atheris stage in thorough",
         "Generated-input exploration of all mode combinations on success and failure paths (empty, delimiter-free, unknown, arbitrary Unicode): default never raises, passthrough returns input, strict raises only library errors.",
         "Mode relation only; the values are pinned by C01/C02/C06.",
     ),
@@ -89,12 +89,12 @@ TABLE = {
         "The scalar methods are the oracle (pinned by C01-C08); input files are well-formed CSV written with newline=''.",
     ),
     "C17": (
-        "Hypothesis differential test: in-process Flask test client vs. Starlette TestClient vs. reference model of expand, over generated converters and request paths",
+        "Hypothesis differential test: in-process Flask test client vs. Starlette TestClient vs. reference model of expand, over generated converters and request paths, incl. converters extended after the apps were built and sibling converters sharing records",
         "Generated-input exploration of GET /<prefix><delimiter><identifier> on both frameworks with identifiers containing '/' and the delimiter, synonym / unknown / case-varied prefixes, delimiters ':' and '/': status and Location must equal the model and each other.",
         "In-process test clients; characters restricted to those neither framework percent-encodes.",
     ),
     "C18": (
-        "Hypothesis property tests: SPARQL result sets vs. reference model over query shapes; Flask GET/POST and FastAPI GET with independent JSON/XML/CSV readers; Accept negotiation vs. an RFC 7231 oracle",
+        "Hypothesis property tests: SPARQL result sets vs. reference model over query shapes, lookup sequences and multi-URI VALUES blocks on one graph, converters extended after the graph was built; Flask GET/POST and FastAPI GET with independent JSON/XML/CSV readers; Accept negotiation vs. an RFC 7231 oracle",
         "Generated-input exploration at graph level (VALUES inside/after WHERE, both binding directions, configured / other predicates, invalid-IRI synonyms), at HTTP level (three transports, negotiated content type) and of handle_header over grammar-generated Accept headers with q-values and optional whitespace.",
         "FastAPI POST is not exercised (python-multipart absent; import shim only allows building the app). rdflib's SPARQL engine is trusted.",
     ),
@@ -104,7 +104,7 @@ TABLE = {
         "Trusts the model; 'cutoff' means at least cutoff identifiers, as the statement says.",
     ),
     "C20": (
-        "Bounded exhaustive enumeration (all strings up to length 6 / 7 over one representative per character class, 16 processes) plus Hypothesis random longer strings, both against a regex-free transcription of the grammar",
+        "Bounded exhaustive enumeration (all strings up to length 6 / 7 over one representative per character class, 16 processes), a complete sweep of all Unicode scalar values in seven positions, plus Hypothesis random longer strings, all against a regex-free transcription of the grammar",
         "Complete for the stated alphabet up to the length bound (8.1 M strings quick, 113.5 M thorough); exploration beyond it. Both validators are compared with a hand-written predicate on every string.",
         "Representatives stand for their character classes; the random arm samples other members (other whitespace, digits, letters, Unicode).",
     ),
@@ -146,7 +146,7 @@ manifest = {
     ],
     "checks": checks,
     "not_applicable": na,
-    "notes": "All checks: ./check <ID> quick|thorough, replay with ./check <ID> --replay <file>. Exit 0 held / 1 VIOLATION / 2 harness error. Known findings in known_findings.json.",
+    "notes": "All checks: ./check <ID> quick|thorough, replay with ./check <ID> --replay <file>. Exit 0 held / 1 VIOLATION / 2 harness error. Known findings in known_findings.json (open: C19 D10, C17 D12/D13; eleven fixed by fix: commits in /repo). Sensitivity: mutants/selftest.py (54 hand-made mutants) and tools/eval_all_seeded.py (80 independently seeded changes), all caught by the quick tier without the regression corpus.",
 }
 (VERIF / "MANIFEST.json").write_text(json.dumps(manifest, indent=1) + "\n")
 print("claimed:", [c["property_id"] for c in checks], "not yet:", [n["property_id"] for n in na])
